@@ -468,4 +468,29 @@ PartialVerdict(exp, obs) ==
      ELSE IF obs.invalid # <<>> THEN [why |-> "invalid-name", fam |-> Range(obs.invalid)]
      ELSE IF badf # {} THEN [why |-> "unexpected-series", fam |-> {f.name : f \in badf}]
      ELSE [why |-> "ok", fam |-> {}]
+
+(* ---------------------------------------------------------------- the collection behind a scrape *)
+(* A scrape asks the exporter's reader for ONE collection; its outcome is (data, kind):                             *)
+(*   ok           every callback and every producer succeeded                                                      *)
+(*   partial      a NON-FATAL fault during the collection while the reader still produced data (the resource, the   *)
+(*                scopes and the aggregated values of every instrument that holds any):                             *)
+(*                  cb     an observable callback returned an error                                                 *)
+(*                  cbctx  an observable callback returned a context error of a backend call of its own             *)
+(*                         (deadline exceeded -- the collection itself was not cancelled)                           *)
+(*                  prod   an external metric.Producer (WithProducer) returned an error                             *)
+(*   unregistered the exporter has not been handed to a MeterProvider: no data                                      *)
+(*   shutdown     the MeterProvider was shut down: no data                                                          *)
+(* The statement promises, for any valid instruments, exposed values EQUAL to the SDK's aggregated values and the   *)
+(* target / scope info series as configured.  A fault of one callback or producer does not take anything away from   *)
+(* what the SDK aggregated: the duty of a scrape is the same for ok and partial -- everything the reader produced.    *)
+(* Only a collection WITHOUT data exposes nothing (shutdown: nothing, or the exposition of the last state).          *)
+(* (A scrape cannot cancel its collection: prometheus.Collector.Collect has no context.)                             *)
+Faults == {"cb", "cbctx", "prod"}
+CollectKind(phase, faults) == CASE phase = "unreg" -> "unregistered"
+                                [] phase \in {"down", "done"} -> "shutdown"
+                                [] faults = {} -> "ok"
+                                [] OTHER -> "partial"
+Duty(kind) == CASE kind \in {"ok", "partial"} -> "data"
+                [] kind = "unregistered" -> "nothing"
+                [] kind = "shutdown" -> "nothing-or-last"
 =============================================================================
